@@ -37,6 +37,8 @@ type crashHist struct {
 	// BusyCommit: the COMMIT of step BusyCommit-1 fails with SQLITE_BUSY (another process holds a lock on the file past the busy timeout)
 	// and the driver has rolled back; the run goes on and the process is killed at the end. Whatever was acknowledged must be in force.
 	BusyCommit int `json:"busycommit,omitempty"`
+	// FailOp, when set, names the driver operation (and SQLite result code, "exec#8") that fails in step BusyCommit-1 instead of the COMMIT
+	FailOp string `json:"failop,omitempty"`
 }
 
 // pinnedSchema is the table the pinned release creates (internal/persistence/sql Init at the commit under verification).
@@ -189,7 +191,9 @@ func crashChild(args []string) error {
 			continue
 		}
 		c := w.Concretise(s.Log, *s.Req, prev)
-		if h.BusyCommit == k+1 {
+		if h.BusyCommit == k+1 && h.FailOp != "" {
+			hook.arm(h.FailOp, 1)
+		} else if h.BusyCommit == k+1 {
 			driverErrSeq.mu.Lock()
 			forcedDriverErr["commit"] = errSQLiteBusy
 			driverErrSeq.mu.Unlock()
